@@ -4,7 +4,7 @@ from checks import lach_common as lc
 
 
 def run(c):
-    vx = lc.run_vecindex(c, c.pick(["v31_5", "v11_5", "corpus:vecmarks", "sim:s211_7@40"], ["v31_6", "v11_6", "v211_5", "corpus:vecmarks", "sim:s211_7@240", "sim:s111_8@240", "sim:s1111_9@240"]), "merged-clock", ["merged-clock", "merged-clock-adapter"])
+    vx = lc.run_vecindex(c, c.pick(["v31_5", "v11_5", "corpus:vecmarks", "sim:s211_7@40"], ["v31_6", "v11_6", "v211_5", "corpus:vecmarks", "sim:s211_7@150", "sim:s111_8@150", "sim:s1111_9@150"]), "merged-clock", ["merged-clock", "merged-clock-adapter"])
     c.guard("model_merged_fork_entries", vx["total"].get("merged_fork_entries", 0))
     c.guard("model_states_with_forks", vx["total"].get("states_with_forks", 0))
     c.guard("model_late_fork_marks", vx["total"].get("fork_mark_after_a_parent_with_two_plain_branches", 0))
